@@ -144,10 +144,64 @@ func cmpInt(a, b int) int {
 type hm struct {
 	H int `json:"h"`
 	M int `json:"m"`
+	// Via: how the library value is obtained - 0 NewHHmm; 1..3 HHmmFromTime of a time.Time showing
+	// that hour and minute (1: seconds 0, UTC; 2: 59.999999999 s, UTC; 3: 30 s, a +05:45 Location);
+	// 4 HHmmFromString; 5 JSON; 6 the wire decoder. Which of them built it does not matter to the order.
+	Via int `json:"via,omitempty"`
 }
 
-func (t hm) String() string  { return fmt.Sprintf("%02d:%02d", t.H, t.M) }
-func (t hm) lib() types.HHmm { return types.NewHHmm(t.H, t.M) }
+var viaNames = []string{"NewHHmm", "HHmmFromTime(hh:mm:00 UTC)", "HHmmFromTime(hh:mm:59.999999999 UTC)", "HHmmFromTime(hh:mm:30 +05:45)", "HHmmFromString", "UnmarshalJSON", "UnmarshalUT0311L0x"}
+
+func (t hm) String() string {
+	if t.Via != 0 {
+		return fmt.Sprintf("%02d:%02d[%s]", t.H, t.M, viaNames[t.Via])
+	}
+	return fmt.Sprintf("%02d:%02d", t.H, t.M)
+}
+
+// libCache: the library value of every (via, hh:mm), built once (the text parsers compile a regular
+// expression per call)
+var libCache [7][1441]*types.HHmm
+
+func (t hm) lib() types.HHmm {
+	if i := t.H*60 + t.M; t.Via >= 0 && t.Via < 7 && i >= 0 && i < 1441 && t.M < 60 {
+		if p := libCache[t.Via][i]; p != nil {
+			return *p
+		}
+	}
+	return t.build()
+}
+
+func (t hm) build() types.HHmm {
+	switch {
+	case t.Via >= 1 && t.Via <= 3 && t.H < 24:
+		switch t.Via {
+		case 1:
+			return types.HHmmFromTime(time.Date(2024, 6, 15, t.H, t.M, 0, 0, time.UTC))
+		case 2:
+			return types.HHmmFromTime(time.Date(2024, 6, 15, t.H, t.M, 59, 999999999, time.UTC))
+		default:
+			return types.HHmmFromTime(time.Date(2024, 6, 15, t.H, t.M, 30, 0, time.FixedZone("+0545", 5*3600+45*60)))
+		}
+	case t.Via == 4:
+		if v, err := types.HHmmFromString(fmt.Sprintf("%02d:%02d", t.H, t.M)); err == nil && v != nil {
+			return *v
+		}
+	case t.Via == 5:
+		var v types.HHmm
+		if err := json.Unmarshal([]byte(fmt.Sprintf(`"%02d:%02d"`, t.H, t.M)), &v); err == nil {
+			return v
+		}
+	case t.Via == 6:
+		var v types.HHmm
+		if x, err := v.UnmarshalUT0311L0x([]byte{byte(t.H/10<<4 | t.H%10), byte(t.M/10<<4 | t.M%10)}); err == nil {
+			if p, ok := x.(*types.HHmm); ok && p != nil {
+				return *p
+			}
+		}
+	}
+	return types.NewHHmm(t.H, t.M)
+}
 
 // refHHmm: lexicographic (hour, minute), as the property states it.
 func refHHmm(a, b hm) int {
@@ -165,10 +219,10 @@ func allHHmm() []hm {
 	out := make([]hm, 0, 1441)
 	for h := 0; h < 24; h++ {
 		for m := 0; m < 60; m++ {
-			out = append(out, hm{h, m})
+			out = append(out, hm{H: h, M: m})
 		}
 	}
-	return append(out, hm{24, 0})
+	return append(out, hm{H: 24})
 }
 
 func checkHHmmPair(r *vk.Run, a, b hm) {
@@ -211,14 +265,21 @@ func hhmmBoundary(thorough bool) []hm {
 	out := []hm{}
 	for _, h := range hours {
 		for _, m := range mins {
-			out = append(out, hm{h, m})
+			out = append(out, hm{H: h, M: m})
 		}
 	}
-	return append(out, hm{24, 0})
+	return append(out, hm{H: 24})
 }
 
 func runHHmm(r *vk.Run) {
 	all := allHHmm()
+	for via := range libCache {
+		for _, t := range all {
+			t.Via = via
+			v := t.build()
+			libCache[via][t.H*60+t.M] = &v
+		}
+	}
 	vk.Parallel(len(all), func(i int) {
 		for j := range all {
 			checkHHmmPair(r, all[i], all[j])
@@ -227,6 +288,30 @@ func runHHmm(r *vk.Run) {
 	})
 	r.Distinct(int64(len(all) * len(all)))
 	r.Set("hhmm_ordered_pairs", int64(len(all)*len(all)))
+
+	// provenance: one operand from each other way of obtaining an HH:mm value (a time.Time that also
+	// carries seconds, text, JSON, the wire decoder), the other from NewHHmm, both ways round: every
+	// value x the boundary set
+	{
+		bs := hhmmBoundary(r.Thorough())
+		vk.Parallel(len(all), func(i int) {
+			for via := 1; via < len(viaNames); via++ {
+				a := all[i]
+				a.Via = via
+				for _, b := range bs {
+					checkHHmmPair(r, a, b)
+					checkHHmmPair(r, b, a)
+					bv := b
+					bv.Via = via
+					checkHHmmPair(r, a, bv)
+				}
+			}
+			r.Count(int64(3 * (len(viaNames) - 1) * len(bs)))
+		})
+		n := int64(len(all)) * int64(3*(len(viaNames)-1)*len(bs))
+		r.Distinct(n)
+		r.Set("hhmm_provenance_pairs", n)
+	}
 
 	set := hhmmBoundary(r.Thorough())
 	vk.Parallel(len(set), func(i int) {
@@ -979,7 +1064,7 @@ func main() {
 	r.Sample(map[string]any{"profile": "segment 3 = 12:00-11:59", "reference": "rejected, nothing sent"})
 	r.Assume("process time zone pinned to UTC (zone behaviour of date construction belongs to C13); types.ToDate under UTC is checked to yield the requested civil day, otherwise the pair is skipped and the run marked not exhaustive")
 	r.Assume("the ordering of the zero Date (0001-01-01) and of instants before 1970 is outside the property: executed for panics only")
-	r.Assume("HH:mm values are built with types.NewHHmm, dates with types.ToDate; values outside 00:00..24:00 / 0001..9999 are out of domain (C04)")
+	r.Assume("HH:mm values are built with types.NewHHmm (and, in the provenance family, with HHmmFromTime / HHmmFromString / JSON / the wire decoder), dates with types.ToDate; values outside 00:00..24:00 / 0001..9999 are out of domain (C04)")
 	r.Assume("the fake transport (verif/drv) answers every SetTimeProfile request with a well-formed success reply")
 	r.Finish()
 }
